@@ -86,3 +86,123 @@ func VerifC12_factor_input_injective() {
 		vReach("context-varies")
 	}
 }
+
+func c12Blind(name string, c elliptic.Curve, topBitSet bool) (*PrivateKey, []byte) {
+	enc := vBytesC(name, 1, vBound("C12_alg_blind_len", 2, 8))
+	if topBitSet {
+		// the serialisation of the blind (leading zeros, bit lengths) is the subject of
+		// VerifC12_blind_factor; here its bit length is pinned to keep the path count down
+		vAssume(enc[0] >= 0x80)
+	}
+	bk, err := CreateKey(c, enc)
+	vAssume(err == nil)
+	return bk, vBytesC(name+"_context", 0, vBound("C12_alg_ctx_len", 1, 4))
+}
+
+// C12 (group laws of the fork's glue): over a scalar action that is commutative and in which
+// ModInverse(f, n) undoes f, unblinding with the same blind and context returns the public key
+// (in either order of the two operations), and two blindings commute. What is decided is that the
+// fork derives the same factor on both sides, inverts it modulo the group order, and applies it to
+// the right point; that crypto/elliptic is such an action is the dependency's contract.
+func VerifC12_unblind_inverts_blind() {
+	vUnwind(80)
+	vUseModels("bigalg")
+	c := c13Curve()
+	priv, err := GenerateKey(c, &c13Reader{failAt: 1000})
+	vAssume(err == nil)
+	pk := &priv.PublicKey
+	bk, ctx := c12Blind("blind", c, false)
+	blinded, err := BlindPublicKeyWithContext(c, pk, bk, ctx)
+	vAssert(err == nil, "blinds")
+	back, err := UnblindPublicKeyWithContext(c, blinded, bk, ctx)
+	vAssert(err == nil, "unblinds")
+	vAssert(vBytesEq(back.X.Bytes(), pk.X.Bytes()), "unblind-inverts-blind-x")
+	vAssert(vBytesEq(back.Y.Bytes(), pk.Y.Bytes()), "unblind-inverts-blind-y")
+	// and the other way round
+	un, err := UnblindPublicKeyWithContext(c, pk, bk, ctx)
+	vAssert(err == nil, "unblinds-first")
+	again, err := BlindPublicKeyWithContext(c, un, bk, ctx)
+	vAssert(err == nil, "blinds-second")
+	vAssert(vBytesEq(again.X.Bytes(), pk.X.Bytes()), "blind-inverts-unblind-x")
+	vAssert(vBytesEq(again.Y.Bytes(), pk.Y.Bytes()), "blind-inverts-unblind-y")
+	// the context-free entry points are the empty-context ones
+	b0, err := BlindPublicKey(c, pk, bk)
+	vAssert(err == nil, "blinds-without-context")
+	b0c, _ := BlindPublicKeyWithContext(c, pk, bk, []byte{})
+	vAssert(vBytesEq(b0.X.Bytes(), b0c.X.Bytes()), "no-context-is-empty-context")
+	u0, err := UnblindPublicKey(c, b0, bk)
+	vAssert(err == nil, "unblinds-without-context")
+	vAssert(vBytesEq(u0.X.Bytes(), pk.X.Bytes()), "unblind-inverts-blind-without-context")
+	vReach("inverse")
+}
+
+func VerifC12_blinds_commute() {
+	vUnwind(80)
+	vUseModels("bigalg")
+	c := c13Curve()
+	priv, err := GenerateKey(c, &c13Reader{failAt: 1000})
+	vAssume(err == nil)
+	pk := &priv.PublicKey
+	bk1, ctx1 := c12Blind("blind1", c, true)
+	bk2, ctx2 := c12Blind("blind2", c, true)
+	k1, err := BlindPublicKeyWithContext(c, pk, bk1, ctx1)
+	vAssume(err == nil)
+	k12, err := BlindPublicKeyWithContext(c, k1, bk2, ctx2)
+	vAssume(err == nil)
+	k2, err := BlindPublicKeyWithContext(c, pk, bk2, ctx2)
+	vAssume(err == nil)
+	k21, err := BlindPublicKeyWithContext(c, k2, bk1, ctx1)
+	vAssume(err == nil)
+	vAssert(vBytesEq(k12.X.Bytes(), k21.X.Bytes()), "two-blindings-commute-x")
+	vAssert(vBytesEq(k12.Y.Bytes(), k21.Y.Bytes()), "two-blindings-commute-y")
+	// removing the first blind from the doubly blinded key leaves the second blinding
+	u, err := UnblindPublicKeyWithContext(c, k12, bk1, ctx1)
+	vAssume(err == nil)
+	vAssert(vBytesEq(u.X.Bytes(), k2.X.Bytes()), "unblinding-one-of-two-leaves-the-other-x")
+	vAssert(vBytesEq(u.Y.Bytes(), k2.Y.Bytes()), "unblinding-one-of-two-leaves-the-other-y")
+	vReach("commute")
+}
+
+// C12 (signing side): BlindKeySignWithContext signs with the key pair (pk * f, (d f) mod n) for the
+// same factor f that BlindPublicKeyWithContext applies, so that (ideal signatures, valid only for
+// matching key pairs) the signature verifies under the blinded public key and, the blinded key
+// being another point, not under the original one. Natively all of this is the real arithmetic.
+func VerifC12_blind_sign_verifies() {
+	vUnwind(80)
+	vUseModels("bigalg")
+	vUseModels("c12sign")
+	c := c13Curve()
+	priv, err := GenerateKey(c, &c13Reader{failAt: 1000})
+	vAssume(err == nil)
+	pk := &priv.PublicKey
+	bk, ctx := c12Blind("blind", c, true)
+	hash := vBytesC("hash", 0, vBound("C12_hash_len", 2, 70))
+	r, s, err := BlindKeySignWithContext(&c13Reader{failAt: 1000}, priv, bk, hash, ctx)
+	vAssert(err == nil, "blind-signs")
+	if err != nil {
+		return
+	}
+	pkB, err := BlindPublicKeyWithContext(c, pk, bk, ctx)
+	vAssert(err == nil, "blinds")
+	vAssert(Verify(pkB, hash, r, s), "blinded-signature-verifies-under-blinded-key")
+	// the factor is not 1 (an event of probability 2^-bits)
+	vAssume(!vBytesEq(pkB.X.Bytes(), pk.X.Bytes()))
+	vAssert(!Verify(pk, hash, r, s), "blinded-signature-does-not-verify-under-original-key")
+	// an ordinary signature verifies under the ordinary key, and the unblinded blinded key is that key
+	r0, s0, err := Sign(&c13Reader{failAt: 1000}, priv, hash)
+	vAssert(err == nil, "signs")
+	back, err := UnblindPublicKeyWithContext(c, pkB, bk, ctx)
+	vAssert(err == nil, "unblinds")
+	if err == nil {
+		vAssert(Verify(back, hash, r0, s0), "plain-signature-verifies-under-unblinded-blinded-key")
+	}
+	if vBytesEq(ctx, []byte{}) {
+		// the context-free entry point signs for the empty context
+		r1, s1, err := BlindKeySign(&c13Reader{failAt: 1000}, priv, bk, hash)
+		vAssert(err == nil, "blind-signs-without-context")
+		if err == nil {
+			vAssert(Verify(pkB, hash, r1, s1), "context-free-signature-verifies-under-empty-context-key")
+		}
+	}
+	vReach("signed")
+}
